@@ -5,6 +5,11 @@ import z3
 from .values import (Ref, NONE, alloc0, Obj, Unsupported, SORTS, spec_from_ctype, sortkey, coerce, is_z3,
                      to_real, to_int, to_ref, concrete)
 from .smt import Obligation
+from .values import SymDict
+
+
+def _copy_symdict(d):
+    return SymDict([(k, _copy_symdict(v) if isinstance(v, SymDict) else v) for k, v in d.items], d.auto)
 
 
 class State:
@@ -24,7 +29,7 @@ class State:
         s = State()
         s.pc = list(self.pc)
         # mutable Python containers held in locals are copied so that sibling paths do not share them
-        s.locals = {k: (list(v) if type(v) is list else (dict(v) if type(v) is dict else v)) for k, v in self.locals.items()}
+        s.locals = {k: (list(v) if type(v) is list else (dict(v) if type(v) is dict else (_copy_symdict(v) if isinstance(v, SymDict) else v))) for k, v in self.locals.items()}
         s.heap = dict(self.heap)
         s.log = list(self.log)
         s.guards = list(self.guards)
